@@ -496,6 +496,7 @@ type Clause struct {
 }
 
 type LoopSpec struct {
+	HasMod    bool
 	N         int
 	Invs      []*Clause
 	Decreases *Clause
@@ -528,6 +529,7 @@ type FuncSpec struct {
 	Splits     []*SplitSpec
 	Asserts    []*Clause
 	NoPanicOff bool
+	Reveal     []string
 	File       string
 	Line       int
 	Timeout    int
@@ -554,6 +556,7 @@ type Lemma struct {
 	Induct   string // variable of induction, "" = direct
 	Uses     []string
 	Triggers []string
+	Reveal   []string
 	Props    []string
 	Pkg      string
 	File     string
@@ -576,6 +579,7 @@ type GuardSpec struct {
 }
 
 type SpecFile struct {
+	OpaqueNames []string
 	Funcs  map[string]*FuncSpec // key: pkgname.relname
 	Order  []string
 	Specs  []*SpecFn
@@ -592,7 +596,7 @@ var clauseKW = map[string]bool{
 	"modifies": true, "loop": true, "invariant": true, "decreases": true, "safe": true,
 	"nowrap": true, "wrapok": true, "inline": true, "trusted": true, "uses": true, "split": true, "props": true,
 	"axiom": true, "induction": true, "guarded_by": true, "pure": true, "assert": true, "timeout": true,
-	"trigger": true, "abstract": true,
+	"trigger": true, "abstract": true, "opaque": true, "reveal": true,
 }
 
 func splitName(rest string) (name, body string) {
@@ -762,6 +766,16 @@ func (sf *SpecFile) Load(path, pkg string) error {
 			cur, curLoop, curLemma = nil, nil, nil
 			name, body := splitName(rc.rest)
 			sf.Axioms = append(sf.Axioms, &Axiom{Name: name, Text: body, Expr: sf.mustExpr(body, path, rc.line), Pkg: pkg, Line: rc.line, File: path})
+		case "opaque":
+			for _, n := range strings.Fields(rc.rest) {
+				sf.OpaqueNames = append(sf.OpaqueNames, n)
+			}
+		case "reveal":
+			if curLemma != nil {
+				curLemma.Reveal = append(curLemma.Reveal, strings.Fields(rc.rest)...)
+			} else if cur != nil {
+				cur.Reveal = append(cur.Reveal, strings.Fields(rc.rest)...)
+			}
 		case "guarded_by":
 			f := strings.Fields(rc.rest)
 			if len(f) != 2 {
@@ -840,6 +854,7 @@ func (sf *SpecFile) Load(path, pkg string) error {
 			target := &cur.Modifies
 			if curLoop != nil {
 				target = &curLoop.Modifies
+				curLoop.HasMod = true
 			} else {
 				cur.HasMod = true
 			}
